@@ -10,7 +10,7 @@ RULE = ('for every registered JSON-RPC method (28, taken from REGISTER_APIFUNCTI
         '(state/event methods) x {authenticated endpoint, unauthenticated connection under an endpoint name, authenticated under an unconfigured name, '
         'the receiver\'s own identity (authenticated / not)}; '
         'every method x every sender relation x every claimed originZone (none, receiver zone, parent, grandparent, child, grandchild, sibling, unrelated, global, nonexistent name); accept_config/accept_commands in all four combinations for the config/command methods; '
-        'messages with no/newer/older "ts"; check results from the command endpoint; '
+        'messages with no/newer/older/EQUAL "ts" (ts=eq: equal to the sender\'s remote log position - a second event of the same clock tick, twice in a row); check results from the command endpoint; '
         'event::ExecuteCommand with an "endpoint" argument (forwarding): sender relation x target endpoint (none, unknown name, receiver itself, own-zone peer, child, grandchild, parent, sibling, unrelated) x claimed originZone x checkable (missing, own zone, child, grandchild, global, zone-less) x capability of the child endpoints x accept_commands, receiver being / not being the routing master of its zone, receivers at the root, in the middle and at a leaf - observed: which zones got an event::ExecuteCommand / event::ExecutedCommand queued; '
         'config::UpdateObject with the zone named by the message (none, unknown name, own, parent, child, sibling, unrelated, global) x zone of the existing object / of the config text of the new object (observed: zone of the created object), config::DeleteObject of zoned runtime objects; '
         'related objects in DIFFERENT zones (family cross-zone-objects: 28 groups Host / its Service / the attached Notification-on-service, Notification-on-host, Comment, Downtime with zone attributes '
@@ -236,7 +236,7 @@ def generate(seed, tier):
             for obj in (rnd.sample(objs_all, 3) if m in OBJ_METHODS else [2]):
                 if keep(m):
                     msgs.append(('sender-is-self', F, msg(F, recv, '2a', m, obj, auth=auth, claim=claim,
-                                                          ts=rnd.choice(['none', 'none', 'new', 'old']))))
+                                                          ts=rnd.choice(['none', 'none', 'new', 'old', 'eq']))))
 
     for m in METHODS:
         for (snd, auth, ident) in senders:
@@ -418,7 +418,15 @@ def generate(seed, tier):
             continue
         (snd, auth, ident) = rnd.choice(senders)
         obj = rnd.choice(objs_all) if m in OBJ_METHODS else 2
-        msgs.append(('ts', F, msg(F, recv, snd, m, obj, auth=auth, ident=ident, ts=rnd.choice(['old', 'new', 'new']))))
+        msgs.append(('ts', F, msg(F, recv, snd, m, obj, auth=auth, ident=ident, ts=rnd.choice(['old', 'new', 'eq', 'eq']))))
+    # equal time stamps: every method from the entitled senders (several distinct events of one clock tick: each must be handled)
+    for m in METHODS:
+        if not keep(m):
+            continue
+        for (snd, auth, ident) in rnd.sample(senders, min(len(senders), 3)):
+            obj = rnd.choice(objs_all) if m in OBJ_METHODS else 2
+            msgs.append(('ts', F, msg(F, recv, snd, m, obj, auth=auth, ident=ident, ts='eq')))
+            msgs.append(('ts', F, msg(F, recv, snd, m, obj, auth=auth, ident=ident, ts='eq')))
     # random forests
     nforest = {'quick': 4, 'thorough': 12, 'search': 6}.get(tier, 4)
     for fi in range(nforest):
